@@ -15,3 +15,5 @@ SPEC["streams"] += [
          drivers=[dict(bin="shipdrv", args=["-prop", "closerace"], n_quick=4000, n_thorough=60000)],
          codes={150: "end_reported_twice_by_coinciding_closers", 152: "end_never_reported_by_coinciding_closers"}),
 ]
+
+SPEC["manifest"]["text"] += " Causes coinciding on different goroutines (RegRace.v): (a) theorem, unbounded: with the closed-check and the registry store of registerCheckedConnection in one critical section, every sequence of registrations and end reports of a connection that contains an end report leaves it unregistered; refuted for the two-step version (check - end - store); which one the code is, is regenerated from the AST (hub_register_atomic) and is a proof obligation; stream: a real hub, a harness connection whose end is reported before, after or during the closed-check of its registration. (b) close_body_once (regenerated): the whole body of CloseConnection runs inside sync.Once.Do - the justification of the model's atomic once flag under concurrent closers (Go's contract for sync.Once is trusted); stream: 4000 fresh connections each closed by four goroutines released together (CloseConnection safe/unsafe/with code, ReportConnectionError), counting HandleConnectionClosed. Monitor-free corollary (ConnExplicit.v): on every model run HandleConnectionClosed occurs at most once."
